@@ -79,6 +79,9 @@ type Gen struct {
 	// through one process, which is what size-bounded caches need to start
 	// evicting.
 	Soak string
+	// Lifetimes enables the garbage-collection fault (the tree under test uses
+	// finalizers, cleanups, weak pointers or unique handles).
+	Lifetimes bool
 
 	templates map[string][]string            // ecosystem -> range templates
 	words     map[string][]string            // ecosystem -> alphabetic tokens seen in its versions
@@ -654,6 +657,9 @@ func (g *Gen) Spec(seed uint64, index int) Spec {
 		ClockBase: 1_700_000_000_000_000_000 + int64(p.n(1<<30))*1_000_000_000 - (1<<29)*1_000_000_000,
 		PoolDrop:  uint32([]int{0, 100, 500}[p.n(3)]),
 		PoolSteal: p.chance(1, 2),
+	}
+	if g.Lifetimes {
+		sp.Faults.GCPoints = p.n(4)
 	}
 	return sp
 }
